@@ -177,6 +177,12 @@ func checkC07(c CaseC07, info *Info) *Failure {
 			return failf("first-value-mismatch", "map %s path %q ValueForPath=%s not among %s", canon(c.Map), path, canon(v), canon(want))
 		}
 	}
+	// ValueOrEmptyForPathString is ValueForPathString with the error dropped
+	if oe := mxj.Map(subject).ValueOrEmptyForPathString(path); !wild && oe != vs {
+		return failf("first-value-mismatch", "map %s path %q ValueOrEmptyForPathString=%q, ValueForPathString=%q (%v)", canon(c.Map), path, oe, vs, vserr)
+	} else if len(want) == 0 && oe != "" {
+		return failf("first-value-mismatch", "map %s path %q ValueOrEmptyForPathString=%q although the path yields nothing", canon(c.Map), path, oe)
+	}
 	if !reflect.DeepEqual(subject, c.Map) {
 		return failf("receiver-modified", "map %s path %q receiver now %s", canon(c.Map), path, canon(subject))
 	}
